@@ -1,0 +1,51 @@
+"""
+Verification hooks (add-only instrumentation for the model-based checks kept outside this repository).
+
+Everything here is inert unless the environment variable ``KRROOD_VERIF`` is ``1`` when this module is first
+imported *and* a sink has been installed with :func:`install`. A sink is a callable ``sink(event: str, fields: dict)``.
+"""
+
+from __future__ import annotations
+
+import os
+from typing import Any, Callable, Dict, Optional
+
+ENABLED: bool = os.environ.get("KRROOD_VERIF") == "1"
+"""
+Whether the hooks are compiled in for this process.
+"""
+
+_sink: Optional[Callable[[str, Dict[str, Any]], None]] = None
+
+
+def install(sink: Optional[Callable[[str, Dict[str, Any]], None]]) -> None:
+    """
+    Install (or remove, with None) the event sink.
+    """
+    global _sink
+    _sink = sink
+
+
+def emit(event: str, **fields: Any) -> None:
+    """
+    Emit one event to the installed sink; a no-op when the guard is off or no sink is installed.
+    """
+    if ENABLED and _sink is not None:
+        _sink(event, fields)
+
+
+def relation_fields(graph: Any, relation: Any) -> Dict[str, Any]:
+    """
+    Cheap scalar projection of a PredicateClassRelation for the ``add_relation`` event.
+    """
+    wrapped_field = relation.wrapped_field
+    return dict(
+        graph=id(graph),
+        s=relation.source.index,
+        t=relation.target.index,
+        f=getattr(wrapped_field, "public_name", None) or str(wrapped_field),
+        owner=wrapped_field.clazz.clazz.__name__,
+        inferred=relation.inferred,
+        live=relation.source.instance is not None
+        and relation.target.instance is not None,
+    )
